@@ -283,6 +283,19 @@ pub fn c03(n: usize, start: usize, len: usize, deep: bool) -> Vec<Case> {
             }
         }
     }
+    for a in 0..=len {
+        for b in a..=len {
+            for k in 0..=(b - a) as u8 {
+                for t in [Step::Nth(k), Step::NthBack(k), Step::Skip(k), Step::StepBy(k)] {
+                    out.push(base(n, start, len, vec![Op::Drain(canonical(a, b), vec![t], End::Drop)]));
+                    out.push(base(n, start, len, vec![Op::Drain(canonical(a, b), vec![Step::NextBack, t, Step::Next], End::Drop)]));
+                }
+            }
+            for t in [Step::Count, Step::Last, Step::Fold, Step::RevCollect] {
+                out.push(base(n, start, len, vec![Op::Drain(canonical(a, b), vec![t], End::Drop)]));
+            }
+        }
+    }
     for m in 0..=(2 * n + 1).min(crate::deq::FROM_ARRAY_MAX_M) as u32 {
         if n <= crate::deq::FROM_ARRAY_MAX_N {
             out.push(base(n, start, len, vec![Op::FromArray(m)]));
@@ -576,6 +589,22 @@ pub fn c09(n: usize, start: usize, len: usize, end: End) -> Vec<Case> {
             }
             if end == End::Drop {
                 out.push(base(n, start, len, vec![Op::Drain(canonical(a, b), vec![Step::Dbg, Step::Next, Step::Dbg, Step::NextBack, Step::Dbg], End::Drop)]));
+                // the adaptor-style consumers (default implementations today): nth, nth_back, count,
+                // last, fold/collect, rev, skip, step_by - alone and after a step from either end
+                for pre in [vec![], vec![Step::Next], vec![Step::NextBack]] {
+                    for k in 0..=(b - a + 1) as u8 {
+                        for t in [vec![Step::Nth(k)], vec![Step::NthBack(k)], vec![Step::Nth(k), Step::NextBack], vec![Step::NthBack(k), Step::Next], vec![Step::Skip(k)], vec![Step::StepBy(k)]] {
+                            let mut s = pre.clone();
+                            s.extend(t);
+                            out.push(base(n, start, len, vec![Op::Drain(canonical(a, b), s, End::Drop)]));
+                        }
+                    }
+                    for t in [Step::Count, Step::Last, Step::Fold, Step::RevCollect] {
+                        let mut s = pre.clone();
+                        s.push(t);
+                        out.push(base(n, start, len, vec![Op::Drain(canonical(a, b), s, End::Drop)]));
+                    }
+                }
             }
         }
     }
